@@ -225,4 +225,102 @@ example : GoodOrder [[0, 0], [1, 0], [0, -1], [1, -1]] 2 := by
 example : valueAt [[0, 0], [1, 0], [0, -1], [1, -1]] [10, 30, 14, 50] [1, -1] = 50
     ∧ valueAt [[0, 0], [1, 0], [0, -1], [1, -1]] [10, 30, 14, 50] [1, -1/2] = 40 := by decide +kernel
 
+
+/-- a master's user-space location normalised axis by axis with the triples of the designspace -/
+def normLoc : List (Q × Q × Q) → List Q → Option Loc
+  | [], [] => some []
+  | (lo, d, hi) :: ts, v :: vs =>
+    match normalizeValue v lo d hi, normLoc ts vs with
+    | some x, some xs => some (x :: xs)
+    | _, _ => none
+  | _, _ => none
+
+/-- every axis triple is ordered and the location lies inside it (what `axis_hull` gives for a master) -/
+def InRange : List (Q × Q × Q) → List Q → Prop
+  | [], [] => True
+  | (lo, d, hi) :: ts, v :: vs => lo ≤ d ∧ d ≤ hi ∧ lo ≤ v ∧ v ≤ hi ∧ InRange ts vs
+  | _, _ => False
+
+theorem normLoc_props : ∀ (ts : List (Q × Q × Q)) (vs : List Q), InRange ts vs →
+    ∃ x, normLoc ts vs = some x ∧ x.length = ts.length ∧ ∀ c ∈ x, -1 ≤ c ∧ c ≤ 1
+  | [], [], _ => ⟨[], rfl, rfl, fun _ h => absurd h List.not_mem_nil⟩
+  | (lo, d, hi) :: ts, v :: vs, h => by
+    obtain ⟨h1, h2, h3, h4, h5⟩ := h
+    obtain ⟨xs, e, l, b⟩ := normLoc_props ts vs h5
+    have hx : ∃ x, normalizeValue v lo d hi = some x := by
+      rcases normalize_cases v lo d hi ⟨h1, h2⟩ h3 h4 with ⟨_, e⟩ | ⟨_, e⟩ | ⟨_, e⟩ <;> exact ⟨_, e⟩
+    obtain ⟨x, ex⟩ := hx
+    refine ⟨x :: xs, by simp only [normLoc, ex, e], by simp [l], ?_⟩
+    intro c hc
+    rcases List.mem_cons.mp hc with rfl | hc
+    · exact normalize_in_box v lo d hi c ⟨h1, h2⟩ h3 h4 ex
+    · exact b c hc
+  | [], _ :: _, h => h.elim
+  | _ :: _, [], h => h.elim
+
+theorem normLoc_inj : ∀ (ts : List (Q × Q × Q)) (a b : List Q) (x : Loc), InRange ts a → InRange ts b →
+    normLoc ts a = some x → normLoc ts b = some x → a = b
+  | [], [], [], _, _, _, _, _ => rfl
+  | (lo, d, hi) :: ts, v :: vs, w :: ws, x, ha, hb, ea, eb => by
+    obtain ⟨h1, h2, h3, h4, h5⟩ := ha
+    obtain ⟨_, _, g3, g4, g5⟩ := hb
+    simp only [normLoc] at ea eb
+    cases e1 : normalizeValue v lo d hi with
+    | none => simp [e1] at ea
+    | some xv =>
+      cases e2 : normLoc ts vs with
+      | none => simp [e1, e2] at ea
+      | some xvs =>
+        cases e3 : normalizeValue w lo d hi with
+        | none => simp [e3] at eb
+        | some xw =>
+          cases e4 : normLoc ts ws with
+          | none => simp [e3, e4] at eb
+          | some xws =>
+            simp only [e1, e2, Option.some.injEq] at ea
+            simp only [e3, e4, Option.some.injEq] at eb
+            have := ea.trans eb.symm
+            simp only [List.cons.injEq] at this
+            have hv : v = w := normalize_inj v w lo d hi xv ⟨h1, h2⟩ h3 h4 g3 g4 e1 (this.1 ▸ e3)
+            have hvs : vs = ws := normLoc_inj ts vs ws xvs h5 g5 e2 (this.2 ▸ e4)
+            rw [hv, hvs]
+  | [], [], _ :: _, _, _, h, _, _ => h.elim
+  | [], _ :: _, _, _, h, _, _, _ => h.elim
+  | _ :: _, [], _, _, h, _, _, _ => h.elim
+  | _ :: _, _ :: _, [], _, _, h, _, _ => h.elim
+
+/-- **C18.2, from the configuration**: axis triples as `write_variable_font` declares them (`axis_hull`: every master
+inside, default between the ends), masters at pairwise distinct user-space locations — every master is reproduced
+at its own (normalised) location, for any number of axes and masters, in whatever order they are declared. -/
+theorem config_masters_reproduced (ts : List (Q × Q × Q)) (user : List (List Q))
+    (hin : ∀ l ∈ user, InRange ts l) (hnd : user.Nodup) (ms : List Q) (hl : ms.length = user.length)
+    (i : Nat) (m : Q) (hi : ms[i]? = some m) :
+    let nl := user.map fun l => (normLoc ts l).getD []
+    valueAt (sortLocs nl) ms ((sortLocs nl).getD i []) = m := by
+  intro nl
+  have hlen : ∀ l ∈ nl, l.length = ts.length := by
+    intro l hl'
+    obtain ⟨u, hu, rfl⟩ := List.mem_map.mp hl'
+    obtain ⟨x, e, len, _⟩ := normLoc_props ts u (hin u hu)
+    simp [e, len]
+  have hbox : ∀ l ∈ nl, ∀ v ∈ l, -1 ≤ v ∧ v ≤ 1 := by
+    intro l hl'
+    obtain ⟨u, hu, rfl⟩ := List.mem_map.mp hl'
+    obtain ⟨x, e, _, b⟩ := normLoc_props ts u (hin u hu)
+    simpa [e] using b
+  have hnd' : nl.Nodup := by
+    refine List.Nodup.map_on ?_ hnd
+    intro a ha b hb e
+    obtain ⟨xa, ea, _, _⟩ := normLoc_props ts a (hin a ha)
+    obtain ⟨xb, eb, _, _⟩ := normLoc_props ts b (hin b hb)
+    simp only [ea, eb, Option.getD_some] at e
+    exact normLoc_inj ts a b xa (hin a ha) (hin b hb) ea (e ▸ eb)
+  exact masters_reproduced_any_order nl ts.length hlen hbox hnd' ms (by simp [nl, hl]) i m hi
+
+
+-- non-vacuity: wght 100..900 (default 400) and wdth 75..125 (default 100), four masters
+example : InRange [(100, 400, 900), (75, 100, 125)] [900, 75] ∧ normLoc [(100, 400, 900), (75, 100, 125)] [900, 75] = some [1, -1]
+    ∧ normLoc [(100, 400, 900), (75, 100, 125)] [250, 100] = some [-1/2, 0] := by
+  refine ⟨by simp [InRange] <;> norm_num, by decide +kernel, by decide +kernel⟩
+
 end NanoVerif.C18
